@@ -13,6 +13,7 @@ CONSTANTS
   MCScopes <- ScopesTwo
   MCRoutes <- RoutesAll
   MCExits <- ExitsNo
+  MCIos <- IoOk
   Emitting = TRUE
 INVARIANT PContained
 INVARIANT PZeroIff
